@@ -163,12 +163,31 @@ func suiteC10(cfg Config, res *Result) {
 	type chainRec struct {
 		files map[string]string
 		wants []string
+		names []string
 	}
 	var chains []chainRec
 	for i := 0; i < n; i++ {
 		k := 1 + rng.Intn(5)
 		g := &c10gen{r: rng.Fork(), defs: map[string][][]bnode{}, k: k}
 		files := map[string]string{}
+		// names of the chain: t0.tpl … or the same file name in a directory per level (rooted names)
+		sameName := i%3 == 1
+		tname := func(lvl int) string {
+			if sameName {
+				if lvl == 0 {
+					return "page.tpl"
+				}
+				return fmt.Sprintf("l%d/page.tpl", lvl)
+			}
+			return fmt.Sprintf("t%d.tpl", lvl)
+		}
+		// how a level names its parent: relative to its own directory
+		pname := func(lvl int) string {
+			if sameName && lvl >= 1 {
+				return "../" + tname(lvl-1)
+			}
+			return tname(lvl - 1)
+		}
 		// base
 		g.level = 0
 		g.used = map[string]bool{}
@@ -188,13 +207,13 @@ func suiteC10(cfg Config, res *Result) {
 			}
 		}
 		doc = append(doc, bnode{k: "text", s: "]"})
-		files["t0.tpl"] = bsrc(doc, g.defs, 0)
+		files[tname(0)] = bsrc(doc, g.defs, 0)
 		for lvl := 1; lvl <= k; lvl++ {
 			g.level = lvl
 			g.used = map[string]bool{}
 			var sb strings.Builder
 			sb.WriteString(rng.Pick([]string{"", "junk ", "{# c #}"}))
-			sb.WriteString(fmt.Sprintf(`{%% extends "t%d.tpl" %%}`, lvl-1))
+			sb.WriteString(`{% extends "` + pname(lvl) + `" %}`)
 			var names []string
 			for nm, d := range g.defs {
 				for j := 0; j < lvl; j++ {
@@ -216,7 +235,7 @@ func suiteC10(cfg Config, res *Result) {
 				sb.WriteString(rng.Pick([]string{"", "outside", "{{ 1 }}"}))
 				sb.WriteString("{% block " + nm + " %}" + bsrc(b, g.defs, lvl) + "{% endblock %}")
 			}
-			files[fmt.Sprintf("t%d.tpl", lvl)] = sb.String()
+			files[tname(lvl)] = sb.String()
 		}
 		hasSuper := false
 		for _, f := range files {
@@ -224,7 +243,13 @@ func suiteC10(cfg Config, res *Result) {
 				hasSuper = true
 			}
 		}
-		cr := chainRec{files: files}
+		cr := chainRec{files: files, names: func() []string {
+			var ns []string
+			for l := 0; l <= k; l++ {
+				ns = append(ns, tname(l))
+			}
+			return ns
+		}()}
 		for lvl := 0; lvl <= k; lvl++ {
 			var sb strings.Builder
 			refRender(doc, g.defs, lvl, "", 0, &sb)
@@ -234,9 +259,16 @@ func suiteC10(cfg Config, res *Result) {
 			if k >= 2 && hasSuper {
 				lbl = "super"
 			}
-			pc := ProgCase{Src: fmt.Sprintf("t%d.tpl", lvl), FromFile: true, Loaders: []map[string]string{files}, Ctx: &ct, Label: lbl}
+			pc := ProgCase{Src: tname(lvl), FromFile: true, Loaders: []map[string]string{files}, Ctx: &ct, Label: lbl}
 			cases = append(cases, pc)
 			wants[pc.Req()] = sb.String()
+			if i%5 == 2 && lvl == k {
+				// the same template reached through an include instead of directly
+				pc2 := ProgCase{Src: `[{% include "` + tname(lvl) + `" %}|{% include inc %}]`, Loaders: []map[string]string{files},
+					Ctx: &CtxTerm{Names: []string{"two", "inc"}, Vals: []VT{vList("int", vInt(1), vInt(2)), vStr(tname(lvl))}}, Label: lbl}
+				cases = append(cases, pc2)
+				wants[pc2.Req()] = "[" + sb.String() + "|" + sb.String() + "]"
+			}
 		}
 		if i%4 == 0 {
 			chains = append(chains, cr)
@@ -263,7 +295,7 @@ func suiteC10(cfg Config, res *Result) {
 						got = execRes{pan: fmt.Sprint(p)}
 					}
 				}()
-				tpl, err := set.FromCache(fmt.Sprintf("t%d.tpl", lvl))
+				tpl, err := set.FromCache(cr.names[lvl])
 				if err != nil {
 					got = execRes{err: err.Error()}
 					return
